@@ -423,8 +423,11 @@ def gen_cmd(rng, prof, depth=0, path="p", used_env=None, inherited=None):
                     glob["shorts"].add(a["short"])
                 for n, _ in a.get("saliases", []):
                     glob["shorts"].add(n)
+        # with the generated `help` subcommand disabled, a USER subcommand may be called `help` (it is an ordinary
+        # subcommand then: global arguments are copied into it like into any other)
+        pool = SUBS + ["help", "help"] if "disable_help_subcommand" in S else SUBS
         for k in range(rng.randrange(1, 3)):
-            n = pick(rng, SUBS)
+            n = pick(rng, pool)
             if n in names:
                 continue
             names.add(n)
